@@ -96,7 +96,7 @@ CHECKS = {
         "level": "proof",
         "assumptions": CHRONO_ASSUMPTIONS,
         "uncovered": [
-            "JSON loading in general (serde derive expansions + serde_json) is outside both verifiers' reach: only the three replayed inputs of the genuine defects found there (cases d3, d4: rebuild-on-load data models; d6: NaN in the spline solve) are re-run on every check, as single-input bounded stand-ins",
+            "JSON loading: the two hand-written load-time reconstructions (TryFrom<NamedCalDataModel> for NamedCal, TryFrom<FXRatesDataModel> for FXRates) ARE under contract (extracted each run: an error for unknown names / an empty currency list / quotes that try_new refuses, never an abort; otherwise exactly the object try_new builds; lemma_named_reload and lemma_reload_same_market: the reloaded object is the saved one). What stays outside both verifiers' reach is serde's derive expansion and serde_json's parser (malformed text, field framing, float text): there only the replayed inputs of the genuine defects found (cases d3, d4: rebuild-on-load data models; d6: NaN in the spline solve) are re-run on every check, as single-input bounded stand-ins",
             "Ccy::try_new: the string operations (lower-casing, byte length) and the global interner are abstract; that a byte length of 3 means three ASCII characters is not modelled",
             "curve constructor CurveDF::try_new is under contract in unit `curves` (always Ok; checked under C11), not re-listed among C20's obligations; a curve with fewer than two nodes is accepted by it and look-ups on such a curve are outside every contract here (precondition nodes_ok)",
         ],
